@@ -14,10 +14,11 @@
    Huber(gamma >= 0), GroupL1Norm(exponent 1), IndicatorGroupL1UnitBall(exponent inf) on ANY positively
    weighted space; IndicatorSimplex(diameter >= 0) on a uniformly weighted space; LpNorm(inf) and
    IndicatorLpUnitBall(1) on an unweighted space (their proximals are NOT minimisers on other weightings:
-   recorded findings, see C07/Refuted.v).  The pointwise-2-norm group functionals and the KL family are
-   modelled and tied by the correspondence only.                                                        *)
+   recorded findings, see C07/Refuted.v); GroupL1Norm(exponent 2) on a power space X^d whose weights are those
+   of X repeated d times.  IndicatorGroupL1UnitBall(exponent 2) is modelled and tied by the correspondence
+   only; the KL family has its own theorems below (its values involve ln).                              *)
 From Coq Require Import Reals Lra List Bool.
-From Verif Require Import Base.Num Base.Vec Base.VecR C07.Model C07.Convex C07.Leaves C07.LeafThms C07.Rules C07.L2 C07.Compose C07.Sorting C07.KL C07.Proofs C07.Refuted.
+From Verif Require Import Base.Num Base.Vec Base.VecR C07.Model C07.Convex C07.Leaves C07.LeafThms C07.Rules C07.L2 C07.Compose C07.Sorting C07.KL C07.Group C07.Proofs C07.Refuted.
 Import ListNotations.
 Local Open Scope R_scope.
 
@@ -232,6 +233,15 @@ Theorem linfty_prox : forall n (sigma : R) (x : list R), 0 < sigma -> length x =
             is_proxs n (leaf_val FLInf (repeat 1 n)) (repeat (/ sigma) n) x p.
 Proof. exact linf_leaf_prox. Qed.
 Print Assumptions linfty_prox.
+
+(* GroupL1Norm(X^d, exponent 2) / proximal_l1_l2: block soft threshold at every point of a vector field, flat
+   layout of d blocks of m entries, weights wb of X repeated d times; all d >= 1, all m. *)
+Theorem group_l1_l2_prox : forall m d (wb x : list R) (s : R), 0 < s -> (1 <= d)%nat -> allpos wb -> length wb = m ->
+  length x = (d * m)%nat ->
+  let w := concat (repeat wb d) in
+  is_proxs (d * m) (leaf_val (FGroupL1 m d true) w) (metric w (repeat s (d * m))) x (prox_l1_l2 m d 1 None s x).
+Proof. exact groupl1_leaf_prox. Qed.
+Print Assumptions group_l1_l2_prox.
 
 (* Kullback-Leibler (values involve ln, so these leaves are outside the executable tree model; the proximal
    formulas are the model's, tied by the correspondence):
